@@ -6,9 +6,15 @@
    per-signer limits and the partial-signature rules are covered by the correspondence check
    (harness/cmd/hx-c10: real instances, real validators), not by a theorem. *)
 From Coq Require Import List NArith ZArith Bool.
-From SSV Require Import Qbft.Model Qbft.Compact Qbft.Honest Qbft.Bridge.
+From SSV Require Import Qbft.Model Qbft.Compact Qbft.Honest Qbft.Bridge Qbft.SyncRound Qbft.SyncGeneric
+     Qbft.HonestGate Qbft.HonestGateRound.
+From SSV Require Validation.Model Gen.ValidationConsts Validation.ProofsPanic Validation.ProofsTime Validation.Rules
+     Validation.HonestRound Validation.HonestTime Validation.HonestEnvelope.
 Import ListNotations.
 Local Open Scope N_scope.
+Module VT := SSV.Validation.ProofsTime.
+Module VR := SSV.Validation.Rules.
+Module HT := SSV.Validation.HonestTime.
 
 (* validateJustifications calls instance.IsProposalJustification with signature verification off and
    a value check that accepts everything.  Whatever the instance's own configuration accepts, that
@@ -84,3 +90,75 @@ Print Assumptions C10_leader_guard_admits_reachable_rounds.
    leader builds its proposal with its CURRENT round and that round's round changes; the hypothesis
    [c_round (co m) = s_round s] of C10_leader_proposal_valid is exactly what the timing assumptions
    provide (operators are at most one round apart), and is needed. *)
+
+(* ---- the composition with the gate, for the fault-free first round ------------------------------------------
+   Second sentence of the property ("in a fault-free run with in-order timely delivery every such message is
+   accepted"), for the consensus messages of the first round, proved for EVERY committee of distinct non-zero
+   ids, every quorum in 1..n, every height < 2^63, every leader, every consensus role, and for ANY arrival
+   order (stronger than in-order) - each message at most once, each validated while the peer's beacon clock is
+   in the duty's slot (any second and nanosecond of it).
+
+   (1) is the protocol side (C07's theorem read as "what is broadcast"): every operator of the protocol model
+   broadcasts exactly [round_broadcasts].  (2) runs those broadcasts, wrapped in the envelope a peer receives
+   ([envelope_of]: gate_msg is the validator's view of a protocol message), through the validation model's
+   entry point [V.run] - the model hx-val ties to the real validator - from a validator state that has seen
+   nothing of the duty: every result is Accept.  Later rounds, partial-signature messages and delivery at
+   other offsets of the window are explored by hx-c10 with real controllers and validators, not proved. *)
+Theorem C10_fault_free_round_broadcasts : forall (qc : cfg) (h ld : N),
+  NoDup (committee qc) -> ~ In 0 (committee qc) ->
+  1 <= quorum qc -> quorum qc <= N.of_nat (length (committee qc)) ->
+  proposer qc h FIRST_ROUND = Some ld -> value_check qc (start_value ld) = true ->
+  forall i, In i (committee qc) ->
+  exists s bs, run (with_me qc i) (new_instance h)
+                   (OStart (start_value i)
+                    :: OMsg (msg_of qc h T_PROPOSAL ld (hash (start_value ld)) (start_value ld))
+                    :: map (fun j => OMsg (msg_of qc h T_PREPARE j (hash (start_value ld)) None)) (committee qc)
+                    ++ map (fun j => OMsg (msg_of qc h T_COMMIT j (hash (start_value ld)) None)) (committee qc))
+               = (s, bs) /\
+              smsgs_eqb (bcasts bs) (round_broadcasts qc h ld i) = true.
+Proof. exact every_operator_broadcasts_round_broadcasts. Qed.
+Print Assumptions C10_fault_free_round_broadcasts.
+
+Theorem C10_fault_free_round_is_accepted : forall (qc : cfg) (h ld : N),
+  ~ In 0 (committee qc) -> proposer qc h FIRST_ROUND = Some ld -> h <= 9223372036854775807 ->
+  forall (vc : V.cfg) (sh : V.share) (vid role fdlen : N) (p2p : bool) (rawlen dlen pkprefix : N),
+  VP.wf_cfg vc -> V.get_share vc vid = Some sh -> V.s_committee sh = committee qc ->
+  V.s_liquidated sh = false -> V.s_has_meta sh = true -> V.s_attesting sh = true ->
+  dlen <> 0 -> dlen <= VC.maxConsensusMsgSize -> VC.messageOffset < rawlen -> rawlen <= VC.maxEncodedMsgSize ->
+  (N.eqb role VC.roleValidatorRegistration || N.eqb role VC.roleVoluntaryExit) = false ->
+  V.valid_role role = true -> fdlen <> 0 ->
+  forall (l : list ((Z * Z) * smsg)) (vs : V.vstate),
+  (forall s, V.get_signer s (V.get_cs (vid, role) vs) = None) ->
+  NoDup (map snd l) ->
+  Forall (fun x => HE.in_slot vc h (fst x) /\ In (snd x) (all_broadcasts qc h ld)) l ->
+  Forall (eq V.Accept)
+         (snd (V.run vc vs (map (fun x => (fst x, envelope_of vc vid role fdlen p2p rawlen dlen pkprefix (snd x))) l))).
+Proof. exact fault_free_round_is_accepted. Qed.
+Print Assumptions C10_fault_free_round_is_accepted.
+
+(* the timing assumption is what it says: any instant of the duty's slot passes the slot and round windows *)
+Theorem C10_own_slot_is_inside_the_windows : forall c now role h,
+  VP.wf_cfg c -> VT.wf_time c now -> VR.true_slot c (fst now) = Z.of_N h ->
+  V.validate_slot_time c h role (V.time_unix (fst now) (snd now)) = None /\
+  (V.addw (V.estimated_round c h (V.time_unix (fst now) (snd now))) VC.allowedRoundsInFuture <? VC.firstRound) = false.
+Proof. intros; split; [apply HT.own_slot_passes_slot_time|apply HT.own_slot_round_one_in_window]; assumption. Qed.
+Print Assumptions C10_own_slot_is_inside_the_windows.
+
+(* non-vacuity: four operators, height 1000 (leader 1), the mainnet clock, an attester duty; all nine broadcasts of
+   the round delivered in REVERSE order (commits first, the proposal last) 3.5 s into slot 1000 are accepted *)
+Definition c10_share : V.share :=
+  {| V.s_liquidated := false; V.s_has_meta := true; V.s_attesting := true; V.s_quorum := 3; V.s_committee := [1; 2; 3; 4] |}.
+Definition c10_vcfg : V.cfg :=
+  {| V.c_genesis := 1606824023; V.c_slot_dur := 12; V.c_spe := 32; V.c_perm_epoch := 0; V.c_domain := 3;
+     V.c_shares := [c10_share] |}.
+Definition c10_now : Z * Z := (1606836026%Z, 500000000%Z).
+Definition c10_deliveries : list ((Z * Z) * smsg) :=
+  map (fun m => (c10_now, m)) (rev (all_broadcasts (sync_cfg 4) 1000 1)).
+
+Example C10_fault_free_round_example :
+  proposer (sync_cfg 4) 1000 FIRST_ROUND = Some 1 /\
+  V.get_share c10_vcfg 1 = Some c10_share /\ V.s_committee c10_share = committee (sync_cfg 4) /\
+  VR.true_slot c10_vcfg (fst c10_now) = 1000%Z /\ length c10_deliveries = 9%nat /\
+  snd (V.run c10_vcfg [] (map (fun x => (fst x, envelope_of c10_vcfg 1 0 8 true 400 200 77 (snd x))) c10_deliveries))
+  = repeat V.Accept 9.
+Proof. vm_compute. repeat split; reflexivity. Qed.
